@@ -111,7 +111,11 @@ MapDel(m, n, k) ==
   ELSE LET ps == Get(m, n).p
            keep == SelectSeq(ps, LAMBDA e : e[1] # k)
        IN IF keep = <<>> THEN Del(m, n) ELSE Put(m, n, [p |-> keep])
-AddU(m, num, wt, val) == [m EXCEPT !.u = Append(@, <<num, wt, val>>)]
+\* An unknown record keeps the raw bytes of its value, except that the length prefix of a length-delimited value is kept
+\* in its shortest form: implementations may retain a non-minimal prefix verbatim or re-encode it (the table-driven and the
+\* reflection-based MessageSet decoders differ in exactly this), and both preserve the field.
+NormVal(wt, val) == IF wt = 2 /\ BytesAt(val, 1).n = Len(val) THEN EncBytes(BytesAt(val, 1).p) ELSE val
+AddU(m, num, wt, val) == [m EXCEPT !.u = Append(@, <<num, wt, NormVal(wt, val)>>)]
 
 \* ------------------------------------------------------------------ decoding
 Bad(m) == [ok |-> FALSE, m |-> m, j |-> 0]
@@ -355,7 +359,7 @@ ParseU(b, i, acc) ==
        IF tg.n < 0 THEN Append(acc, <<0, 0, SubSeq(b, i, Len(b))>>)     \* unparsable remainder is kept visible
        ELSE LET n == FieldValueLen(b, i + tg.n, tg.num, tg.wt, 10000) IN
             IF n < 0 THEN Append(acc, <<0, 0, SubSeq(b, i, Len(b))>>)
-            ELSE ParseU(b, i + tg.n + n, Append(acc, <<tg.num, tg.wt, SubSeq(b, i + tg.n, i + tg.n + n - 1)>>))
+            ELSE ParseU(b, i + tg.n + n, Append(acc, <<tg.num, tg.wt, NormVal(tg.wt, SubSeq(b, i + tg.n, i + tg.n + n - 1))>>))
 RECURSIVE FromProj(_), FromProjV(_)
 FromProjV(v) == IF "m" \in DOMAIN v THEN [m |-> FromProj(v.m)]
                 ELSE IF "l" \in DOMAIN v THEN [l |-> [i \in 1..Len(v.l) |-> FromProjV(v.l[i])]]
